@@ -45,7 +45,7 @@ __CPROVER_assigns()
 __CPROVER_ensures((__CPROVER_return_value != 0) == wi_has(*self, N(x)));
 void h_at(void){ IN(WI, a); IN(W, v); HG; WI_at(&a, &v); REACH; }
 
-//@check id=add fn=_ZNK4crab7domains16wrapped_intervalIN4ikos8z_numberEEplERKS4_ props=C13 vary=WIW:8,32,64
+//@check id=add fn=_ZNK4crab7domains16wrapped_intervalIN4ikos8z_numberEEplERKS4_ props=C13 vary=WIW:3,8
 void WI_add(WI *ret, WI *self, WI *x)
 __CPROVER_requires(FRESH(add, ret, sizeof(WI)) && FRESH(add, self, sizeof(WI)) && FRESH(add, x, sizeof(WI)) && GW && GPTS && wi_okw(*self, g_w) && wi_okw(*x, g_w))
 __CPROVER_assigns(*ret)
